@@ -20,6 +20,9 @@ type Sched struct {
 	CancelPoint string
 	CancelN     int
 	Cancel      func()
+	// CancelSleep keeps the goroutine that hit the cancel point parked for a moment after
+	// cancelling, so that the other goroutines observe the cancellation first.
+	CancelSleep time.Duration
 
 	mu        sync.Mutex
 	rng       *Rng
@@ -117,6 +120,9 @@ func (s *Sched) Hook(point string, a, b int64) {
 	s.mu.Unlock()
 	if doCancel {
 		s.Cancel()
+		if s.CancelSleep > 0 {
+			time.Sleep(s.CancelSleep)
+		}
 	}
 	switch mode {
 	case "perturb":
